@@ -6,6 +6,8 @@ import MosnVerif.Lemmas.Downstream.Timer10
 import MosnVerif.Lemmas.Downstream.Budget10
 import MosnVerif.Lemmas.Downstream.TimerObj10
 import MosnVerif.Lemmas.Downstream.Window10
+import MosnVerif.Lemmas.ReplyWrite
+import MosnVerif.Lemmas.ReplyWriteMachine
 /-!
 # C03 — every request ends exactly once, with one reply, in bounded time (property theorems only)
 
@@ -782,5 +784,170 @@ example : (att (reach { retryOn := true, numRetries := 1 } 0 0 (List.replicate 1
 set_option maxRecDepth 8192 in
 example : (att (reach { retryOn := true, numRetries := 5 } 0 0 (List.replicate 12 .work ++
     (List.range 8).flatMap (fun k => [.upReset k .StreamConnectionFailed, .work, .work, .work]))).trace).length = 6 := by decide
+
+end MosnVerif.Props.C03
+
+/-! ## c03w10: the reply write path can FAIL (`Model/ReplyWrite.lean`) — appended block
+
+The machine above writes a reply part in one infallible step.  In the code each part goes through `appendHeaders(endStream)` /
+`appendData(endStream)` / `appendTrailers()`, whose sender call can fail.  The theorems below are about the REGENERATED bodies
+of the three functions (`Gen.ProxyReplyWrite`, closed vocabulary: an early `return` on the error path is a step) run inside
+the regenerated callers' sequence (which part for which reply shape, the entry guards, the regenerated `processError` after
+every part), for ALL reply shapes × ALL outcome vectors (ok / error per part) × ALL positions of a downstream stream reset
+(between any two steps, in particular from inside the failing call, or never; delivered by the stream layer or by the proxy's
+connection-close callback, which skips a stream whose `upstreamProcessDone` is already set) × ALL start states (client already gone or not,
+upstream stream of a streamed response still open or not). -/
+namespace MosnVerif.Props.C03
+open MosnVerif.Model.ReplyWrite
+
+/-- **reply_write_ends_once**: whatever the sender returns and wherever the client's reset lands, the write of a reply ends
+with the worker returned and the stream cleaned, the BODY of `cleanStream` has run exactly once, `endStream` is entered at most
+once and exactly once after a part that ends the stream (never without one); and when the client stays for the whole write
+every part of the reply is handed to the sender in order — a failed non-final write does not stop the later parts —, the last
+one ends the stream, `endStream` follows once. -/
+theorem reply_write_ends_once (r : Reply) (o : Outs) (rp : Nat) (viaConn clientGone upLive : Bool) :
+    (writeReply genProgs r o rp viaConn (start clientGone upLive)).returned = true ∧
+    (writeReply genProgs r o rp viaConn (start clientGone upLive)).cleaned = true ∧
+    cleans (writeReply genProgs r o rp viaConn (start clientGone upLive)) = 1 ∧
+    ends (writeReply genProgs r o rp viaConn (start clientGone upLive)) ≤ 1 ∧
+    endsAfterEos (writeReply genProgs r o rp viaConn (start clientGone upLive)).ev = true ∧
+    (clientGone = false → 17 ≤ rp →
+      (writeReply genProgs r o rp viaConn (start clientGone upLive)).ev.filter isCall = expectedCalls r o ∧
+      ends (writeReply genProgs r o rp viaConn (start clientGone upLive)) = 1) := by
+  have h := good_all r o rp viaConn clientGone upLive
+  simp only [good, Bool.and_eq_true, beq_iff_eq, decide_eq_true_eq, Bool.or_eq_true, Bool.not_eq_true'] at h
+  obtain ⟨⟨⟨⟨⟨⟨⟨⟨⟨h1, h2⟩, h3⟩, h4⟩, h5⟩, _⟩, _⟩, _⟩, h9⟩, _⟩ := h
+  refine ⟨h1, h2, h3, h4, h5, fun hc hrp => ?_⟩
+  rcases h9 with (hh | hh) | hh
+  · rw [hc] at hh; cases hh
+  · omega
+  · exact hh
+
+/-- **header_only_reply_ends**: a header-only reply — every error reply MOSN generates itself (404 / 502 / 503 / 504, a hijack
+without body, `TerminateStream`: `local_reply_header_only`), a header-only upstream answer — whose `AppendHeaders` is reached
+(the client has not gone before the part is entered) is written with end of stream and followed by `endStream` at once, whether
+the write succeeds or FAILS and wherever a reset lands afterwards: the stream is cleaned once, the active gauge given back, the
+stream taken off the active list. -/
+theorem header_only_reply_ends (o : Outs) (rp : Nat) (viaConn upLive : Bool) (hrp : 1 ≤ rp) :
+    (writeReply genProgs ⟨false, false⟩ o rp viaConn (start false upLive)).ev.take 2 = [Ev.call .headers true o.h, Ev.endStream] ∧
+    ends (writeReply genProgs ⟨false, false⟩ o rp viaConn (start false upLive)) = 1 ∧
+    cleans (writeReply genProgs ⟨false, false⟩ o rp viaConn (start false upLive)) = 1 ∧
+    (writeReply genProgs ⟨false, false⟩ o rp viaConn (start false upLive)).active = 0 ∧
+    (writeReply genProgs ⟨false, false⟩ o rp viaConn (start false upLive)).listed = false := by
+  have h := good_all ⟨false, false⟩ o rp viaConn false upLive
+  simp only [good, Bool.and_eq_true, beq_iff_eq, decide_eq_true_eq, Bool.or_eq_true, Bool.not_eq_true'] at h
+  obtain ⟨⟨⟨⟨⟨⟨⟨⟨⟨_, _⟩, h3⟩, _⟩, _⟩, h6⟩, h7⟩, _⟩, _⟩, h10⟩ := h
+  rcases h10 with (((hh | hh) | hh) | hh) | hh
+  · cases hh
+  · cases hh
+  · cases hh
+  · omega
+  · exact ⟨hh.1, hh.2, h3, h6, h7⟩
+
+/-- the replies MOSN generates itself with `sendHijackReply` are header-only whatever the stream held before (regenerated
+effects, `Gen.ProxyReply`); with `sendHijackReplyWithBody` they are headers + body, never trailers -/
+theorem local_reply_header_only (heldData heldTrailers : Bool) :
+    hijackShape false heldData heldTrailers = ⟨false, false⟩ ∧ hijackShape true heldData heldTrailers = ⟨true, false⟩ := by
+  cases heldData <;> cases heldTrailers <;> decide
+
+/-- **write_error_never_strands**: for every reply, every outcome vector — in particular every one with a failing write —,
+every reset position and every start state, the worker never returns from the write leaving the stream half-ended: when it
+has returned the stream is cleaned, `upstreamProcessDone` set, the active gauge at 0, the stream off the proxy's active list. -/
+theorem write_error_never_strands (r : Reply) (o : Outs) (rp : Nat) (viaConn clientGone upLive : Bool) :
+    (writeReply genProgs r o rp viaConn (start clientGone upLive)).returned = true ∧
+    (writeReply genProgs r o rp viaConn (start clientGone upLive)).cleaned = true ∧
+    (writeReply genProgs r o rp viaConn (start clientGone upLive)).procDone = true ∧
+    (writeReply genProgs r o rp viaConn (start clientGone upLive)).active = 0 ∧
+    (writeReply genProgs r o rp viaConn (start clientGone upLive)).listed = false := by
+  have h := good_all r o rp viaConn clientGone upLive
+  simp only [good, Bool.and_eq_true, beq_iff_eq, decide_eq_true_eq, Bool.or_eq_true, Bool.not_eq_true'] at h
+  obtain ⟨⟨⟨⟨⟨⟨⟨⟨⟨h1, h2⟩, _⟩, _⟩, _⟩, h6⟩, h7⟩, h8⟩, _⟩, _⟩ := h
+  exact ⟨h1, h2, h8, h6, h7⟩
+
+/-- negation witness — `appendHeaders` with "reset and return" on the error path (`if err != nil { s.resetStream(); return }`):
+for a header-only reply `upstreamProcessDone` is already true when the write fails, so `resetStream()` is a no-op, `endStream` is
+skipped, `processError` sees the process done and the worker returns: NOT cleaned, gauge held, still on the active list -/
+example : ((fun (f : RW) => (f.returned, f.cleaned, f.active, f.listed, f.ev))
+    (writeReply earlyReturnHeaders ⟨false, false⟩ ⟨false, true, true⟩ 17 false (start false false))) =
+    (true, false, 1, true, [Ev.call .headers true false]) := by decide
+/-- … and nothing ends it afterwards: not the client's reset, not the connection close (`stranded_stays`) -/
+example : ((fun (f : RW) => (f.cleaned, f.active, f.listed))
+    (exec ⟨false, true, true⟩ (start false false) (ops earlyReturnHeaders ⟨false, false⟩ ++ [Op.reset, Op.connClose, Op.reset]))) =
+    (false, 1, true) := by decide
+/-- … while a reply WITH body survives that variant (the reset reaches the client stream, `processError` cleans up): the
+defect shows on header-only replies only -/
+example : ((fun (f : RW) => (f.cleaned, f.ev))
+    (writeReply earlyReturnHeaders ⟨true, false⟩ ⟨false, true, true⟩ 17 false (start false false))) =
+    (true, [Ev.call .headers false false, Ev.dr, Ev.clean]) := by decide
+/-- negation witness — `appendData` that ends the stream only when the write succeeded: a failing last data write strands the stream -/
+example : ((fun (f : RW) => (f.returned, f.cleaned, f.active, f.ev))
+    (writeReply dataEndsOnlyOnSuccess ⟨true, false⟩ ⟨true, false, true⟩ 17 false (start false false))) =
+    (true, false, 1, [Ev.call .headers false true, Ev.call .data true false]) := by decide
+/-- the regenerated code on the same inputs: ended and cleaned once -/
+example : ((fun (f : RW) => (f.cleaned, f.active, f.ev))
+    (writeReply genProgs ⟨false, false⟩ ⟨false, true, true⟩ 17 false (start false false))) =
+    (true, 0, [Ev.call .headers true false, Ev.endStream, Ev.clean]) := by decide
+example : ((fun (f : RW) => (f.cleaned, f.active, f.ev))
+    (writeReply genProgs ⟨true, false⟩ ⟨true, false, true⟩ 17 false (start false false))) =
+    (true, 0, [Ev.call .headers false true, Ev.call .data true false, Ev.endStream, Ev.clean]) := by decide
+/-- a reset delivered from inside the failing `AppendHeaders` of a reply with body and trailers, the upstream stream of the
+streamed response still open: no further part is written, `processError` cleans up once and resets the upstream stream -/
+example : (writeReply genProgs ⟨true, true⟩ ⟨false, true, true⟩ 3 false (start false true)).ev =
+    [Ev.call .headers false false, Ev.ur, Ev.clean] := by decide
+/-- the connection closes inside the failing LAST write: `upstreamProcessDone` is already set, the proxy's connection-close
+callback skips the stream — nothing but the `endStream` that follows can end it, and it does -/
+example : ((fun (f : RW) => (f.downReset, f.cleaned, f.ev))
+    (writeReply genProgs ⟨true, false⟩ ⟨true, false, true⟩ 8 true (start false false))) =
+    (false, true, [Ev.call .headers false true, Ev.call .data true false, Ev.endStream, Ev.clean]) := by decide
+/-- a reset that lands between the last write and `endStream`: `endStream` still runs, the clean-up runs once (`clean_once`) -/
+example : (writeReply genProgs ⟨true, false⟩ ⟨true, false, true⟩ 8 false (start false false)).ev =
+    [Ev.call .headers false true, Ev.call .data true false, Ev.endStream, Ev.clean] := by decide
+
+/-- **reply_write_clean_once** (any program): for ANY op list over the vocabulary — any bodies of the three functions, any
+interleaving of stream resets and connection closes, any sender outcomes — from a reachable state of the downstream machine
+(whose `clean_once` gives the starting count) the body of `cleanStream` has run exactly once iff the stream is cleaned, never
+twice, and the stream is on the active list iff it is not cleaned: the compare-and-swap in `cleanStream` is what `endStream`,
+`processError`'s `ResetStream` and a filter's termination all go through. -/
+theorem reply_write_clean_once (c : Model.Downstream.Cfg) (ar aq : Nat) (l : List Model.Downstream.Label) (o : Outs) (w : List Op) :
+    cleans (exec o (viewOf (reach c ar aq l).procDone (reach c ar aq l).cleaned (reach c ar aq l).downReset
+      (reach c ar aq l).downLive (Model.Downstream.nLog (reach c ar aq l).trace)) w) =
+      (if (exec o (viewOf (reach c ar aq l).procDone (reach c ar aq l).cleaned (reach c ar aq l).downReset
+        (reach c ar aq l).downLive (Model.Downstream.nLog (reach c ar aq l).trace)) w).cleaned then 1 else 0) ∧
+    (exec o (viewOf (reach c ar aq l).procDone (reach c ar aq l).cleaned (reach c ar aq l).downReset
+      (reach c ar aq l).downLive (Model.Downstream.nLog (reach c ar aq l).trace)) w).listed =
+      !(exec o (viewOf (reach c ar aq l).procDone (reach c ar aq l).cleaned (reach c ar aq l).downReset
+        (reach c ar aq l).downLive (Model.Downstream.nLog (reach c ar aq l).trace)) w).cleaned := by
+  have hv := viewOf_inv (reach c ar aq l).procDone (reach c ar aq l).cleaned (reach c ar aq l).downReset
+    (reach c ar aq l).downLive (Model.Downstream.nLog (reach c ar aq l).trace) (clean_once c ar aq l)
+  have := exec_cleanInv o w _ hv
+  exact ⟨this.count, this.listed⟩
+
+/-- **ok_write_is_machine_step**: the machine's infallible reply steps are the all-writes-succeed runs of the regenerated append
+programs — from every reachable machine state that is not cleaned (so `clean_once` gives "no clean-up body so far"), the
+successful run of `appendHeaders(eos)` / `appendData(eos)` / `appendTrailers()` on the write path's view of the state yields
+the same `upstreamProcessDone`, `downstreamCleaned`, `downstreamReset`, number of clean-up bodies and gauge as the machine's
+`dsAppendHeaders` / `dsAppendData` / `dsAppendTrailers`.  The theorems above extend these steps to failing writes and
+interleaved departures of the client. -/
+theorem ok_write_is_machine_step (c : Model.Downstream.Cfg) (ar aq : Nat) (l : List Model.Downstream.Label) (eos : Bool)
+    (hc : (reach c ar aq l).cleaned = false) :
+    common (okPart .headers eos (viewS (reach c ar aq l))) = commonS (Model.Downstream.dsAppendHeaders c (reach c ar aq l) eos) ∧
+    common (okPart .data eos (viewS (reach c ar aq l))) = commonS (Model.Downstream.dsAppendData c (reach c ar aq l) eos) ∧
+    common (okPart .trailers true (viewS (reach c ar aq l))) = commonS (Model.Downstream.dsAppendTrailers c (reach c ar aq l)) := by
+  have h0 : Model.Downstream.nLog (reach c ar aq l).trace = 0 := by
+    have := clean_once c ar aq l
+    rw [hc] at this
+    simpa using this
+  exact ⟨ok_headers_is_machine_step c _ eos hc h0, ok_data_is_machine_step c _ eos hc h0, ok_trailers_is_machine_step c _ hc h0⟩
+
+/-- non-vacuity: the request is sent, a header-only 200 arrives, the worker is about to write it — not cleaned -/
+example : (reach {} 0 0 (List.replicate 12 .work ++ [.upResp 0 200 false false, .work, .work])).cleaned = false ∧
+    (reach {} 0 0 (List.replicate 12 .work ++ [.upResp 0 200 false false, .work, .work])).phase = .UpRecvHeader := by decide
+
+/-- the worker has returned from the write exactly as `worker_returns_iff_cleaned` says of the machine: returned and cleaned -/
+theorem reply_write_returns_cleaned (r : Reply) (o : Outs) (rp : Nat) (viaConn clientGone upLive : Bool) :
+    (writeReply genProgs r o rp viaConn (start clientGone upLive)).returned =
+      (writeReply genProgs r o rp viaConn (start clientGone upLive)).cleaned := by
+  have := reply_write_ends_once r o rp viaConn clientGone upLive
+  rw [this.1, this.2.1]
 
 end MosnVerif.Props.C03
